@@ -105,10 +105,14 @@ fn case<S: ShortGroupSignatureScheme>(v: &Value) -> Value {
                         if ids.len() == 1 {
                             let d = Element::hash(ids[0].value.as_bytes());
                             for (hi, h) in hs.iter_mut().enumerate() {
-                                if let Some((w, _)) = h.updated {
-                                    let y = Element::hash(hid(hi as u64).as_bytes());
-                                    let w2 = w.update(y, before, after, &[], &[d]);
-                                    h.updated = Some((w2, after));
+                                // (only a handle that was valid for the value before this step can follow it: a chain
+                                // that missed a batch revocation stays broken)
+                                if let Some((w, at)) = h.updated {
+                                    if at == before {
+                                        let y = Element::hash(hid(hi as u64).as_bytes());
+                                        let w2 = w.update(y, before, after, &[], &[d]);
+                                        h.updated = Some((w2, after));
+                                    }
                                 }
                             }
                         } else if !ids.is_empty() {
